@@ -170,10 +170,25 @@ def gen_history(rng):
             {"op": "status", "req": closed, "shallow": rng.random() < 0.5, "handle": a, "own_cache": rng.random() < 0.5},
             {"op": "status", "req": [f for f in uni.listing(t)][:2], "shallow": True, "handle": a, "own_cache": True},
         ]
+    dest_local = rng.random() < 0.4
+    if rng.random() < 0.2:
+        # a history around one store handle: this client pushes one directory, another client then writes everything else
+        # into the remote behind its back (fan-out directories this handle never created), and this client asks about everything
+        t = rng.choice(trees)
+        closed = [t] + list(uni.listing(t))
+        rest = [o for o in uni.all_oids() if o not in closed]
+        a = rng.randrange(2)
+        steps = steps[: rng.randrange(0, 2)] + [
+            {"op": "transfer", "req": closed, "shallow": True, "fail": [], "handle": a},
+            {"op": "external_add", "oids": rest},
+            {"op": "status", "req": uni.all_oids(), "shallow": rng.random() < 0.5, "handle": a, "own_cache": rng.random() < 0.5},
+            {"op": "status", "req": rest[:3] or closed, "shallow": True, "handle": rng.randrange(2)},
+        ]
+        dest_local = rng.random() < 0.8
     return {
         "files": {k: v.decode() for k, v in uni.files.items()},
         "trees": {d: {"/".join(k): v for k, v in e.items()} for d, e in uni.trees.items()},
-        "steps": steps, "dest_local": rng.random() < 0.4,
+        "steps": steps, "dest_local": dest_local,
         # the persistent index is opened once, or twice (two Remote objects / two processes sharing one index directory):
         # each step then goes through the handle it names
         "handles": rng.choice([1, 1, 2]),
